@@ -113,7 +113,9 @@ class Ctx:
 
     def viol(self, tag, what, replay, no_input=False):
         with self.lock:
-            self.chk.violation(tag, what, replay, no_input=no_input)
+            self.nviol = getattr(self, 'nviol', 0) + 1
+            if self.nviol <= 12:
+                self.chk.violation(tag, what, replay, no_input=no_input)
 
     def note_state(self, s, data):
         with self.lock:
@@ -198,7 +200,15 @@ def check_saved(ctx, A, now, tag, replay, hash_opt=(), clamp=False, before=None)
                      'at byte %d of %d' % (tag, now, first_diff(got, data), len(data)), dict(rep, before_hex=before.hex()), no_input=True)
     dec = ctx.model.ask('decode %s %s' % (kline, L.hx(data)))
     if not dec.startswith('ok '):
-        ctx.viol(tag + '_decode', 'MODEL-DRIFT %s: the model answers %s on a content file written by the tool' % (tag, dec[:40]), rep, no_input=True)
+        # does the tool itself load what it wrote, and write it back unchanged?
+        rc, out = A.run(list(hash_opt) + ['test-rewrite'], now=now)
+        d2 = A.content(0)
+        if rc != 0 or d2 != data:
+            ctx.viol(tag + '_reload', '%s: the tool cannot reload and reproduce the content file it has just written (test-rewrite rc %d, first difference at '
+                     'byte %d of %d/%d); the model rejects the file too (%s): %s' % (tag, rc, first_diff(d2 or b'', data), len(d2 or b''), len(data), dec[:10],
+                                                                                   out[-200:].decode('latin1')), rep)
+        else:
+            ctx.viol(tag + '_decode', 'MODEL-DRIFT %s: the model answers %s on a content file written and reloaded by the tool' % (tag, dec[:40]), rep, no_input=True)
         return None
     s = L.parse_state(dec[3:])
     ctx.note_state(s, data)
@@ -470,6 +480,9 @@ def gen_case(ctx, idx, seed, root, big, state_override=None, now_override=None):
                 ctx.stats['tool_rewrite_identical'] += 1
             if A.content(1) != d2:
                 ctx.viol(tag + '_copies', '%s: content copies differ after test-rewrite' % tag, rep)
+    # whatever the bytes, the state must have survived the rewrite
+    if rc == 0:
+        compare_dumps(ctx, A, want, now, tag + '_after_rewrite', rep)
     with ctx.lock:
         if len(data) < 100000:
             ctx.valid_files.append((A.model_conf(), data))
@@ -557,6 +570,92 @@ def malformed_case(ctx, A, kline, data, what, tag):
 
 
 # ---------------------------------------------------------------------------------------
+# route D: the loader without configuration (snapraid -C): level / split / disk auto-configuration
+
+NOCONF = L.conf_line(True, 256 * 1024, 16, [], [])
+
+
+def noconf_expect(s):
+    out = ['blocksize %d' % (s['bs'] // 1024), 'hashsize %d' % s['hs']]
+    for l, p in enumerate(s['parity']):
+        out.append('level %s splits %d' % (L.LEVELS[l], len(p['splits'])))
+        for k, x in enumerate(p['splits']):
+            out.append('split %d PATH:%s SIZE:%s UUID:%s' % (k, x['path'].decode('latin1') or '?', '?' if x['size'] == L.SIZE_INVALID else str(x['size']),
+                                                             x['uuid'].decode('latin1') or '?'))
+    for m in s['maps']:
+        out.append('data %s uuid %s first %s' % (m['name'].decode('latin1'), m['uuid'].decode('latin1'),
+                                                 next((L_first(d) for d in s['disks'] if d['name'] == m['name']), '')))
+    return out
+
+
+def L_first(d):
+    return 'yes' if d['files'] else ''
+
+
+def noconf_parse(text):
+    out = []
+    lines = text.decode('latin1').split('\n')
+    lev = -1
+    k = None
+    cur = None
+    pend = {}
+    for ln in lines:
+        if ln.startswith('blocksize ') or ln.startswith('hashsize '):
+            out.append(ln)
+        m = re.match(r'# You had (\d+) of them:', ln)
+        if m:
+            lev += 1
+            out.append('level %s splits %s' % (L.LEVELS[lev], m.group(1)))
+        m = re.match(r'# (\d+):$', ln)
+        if m:
+            k = int(m.group(1))
+            cur = {}
+        for key in ('PATH', 'SIZE', 'UUID'):
+            if ln.startswith('# %s:' % key) and cur is not None:
+                cur[key] = ln[len(key) + 3:]
+        if ln == '#' and cur is not None:
+            out.append('split %d PATH:%s SIZE:%s UUID:%s' % (k, cur.get('PATH'), cur.get('SIZE'), cur.get('UUID')))
+            cur = None
+        m = re.match(r"# Disk '(.*)' is the one with id '(.*)'$", ln)
+        if m:
+            pend['uuid'] = m.group(2)
+        if ln.startswith('# and containing: '):
+            pend['first'] = 'yes'
+        m = re.match(r'data (.*) ENTER_HERE_THE_DIR$', ln)
+        if m:
+            out.append('data %s uuid %s first %s' % (m.group(1), pend.get('uuid', ''), pend.get('first', '')))
+            pend = {}
+    return out
+
+
+def noconf_case(ctx, data, path, tag):
+    """the real `snapraid -C <content>` against the model's decode without configuration"""
+    open(path, 'wb').write(data)
+    try:
+        r = subprocess.run([ctx.tool, '-C', path], stdout=subprocess.PIPE, stderr=subprocess.DEVNULL, timeout=30, env=dict(os.environ, TZ='UTC'))
+    except subprocess.TimeoutExpired:
+        return
+    dec = ctx.model.ask('decode %s %s' % (NOCONF, L.hx(data)))
+    rep = {'kind': 'mal', 'conf': NOCONF, 'content_hex': data.hex(), 'mutation': 'none (snapraid -C)'}
+    with ctx.lock:
+        ctx.stats['noconf'] = ctx.stats.get('noconf', 0) + 1
+    if (r.returncode == 0) != dec.startswith('ok '):
+        ctx.viol(tag, 'MODEL-DRIFT without configuration (snapraid -C): tool rc %d, model %s' % (r.returncode, dec[:10]), rep, no_input=True)
+        return
+    if r.returncode != 0:
+        return
+    s = L.parse_state(dec[3:])
+    texts = [m['uuid'] for m in s['maps']] + [m['name'] for m in s['maps']] + [x['uuid'] for p in s['parity'] for x in p['splits']] + \
+            [x['path'] for p in s['parity'] for x in p['splits']]
+    if any(c < 0x20 or c == 0x27 for t in texts for c in t):
+        return      # the generated configuration is line oriented: such strings cannot be read back from it
+    with ctx.lock:
+        ctx.stats['noconf_compared'] = ctx.stats.get('noconf_compared', 0) + 1
+    got, want = noconf_parse(r.stdout), noconf_expect(s)
+    if got != want:
+        d = [(a, b) for a, b in zip(got + [''] * len(want), want + [''] * len(got)) if a != b][:3]
+        ctx.viol(tag, 'MODEL-DRIFT without configuration (snapraid -C): generated configuration differs from the model\'s decoded state: %s' % json.dumps(d), rep, no_input=True)
+
 
 def check_consts(chk, snap):
     bad = []
@@ -738,6 +837,22 @@ def main(tier, replay=None):
                 chk.violation('harness', 'harness error: %r %s' % (e, traceback.format_exc()[-600:]), {'error': repr(e)}, no_input=True)
 
     phases['route_C_s'] = round(time.time() - t_c, 1)
+    t_d = time.time()
+    import random as _r
+    rd = _r.Random(rng.getrandbits(48))
+    pool = [x for x in ctx.valid_files if len(x[1]) < 6000 and not any(0x0a in m for m in [x[1][:0]])]
+    rd.shuffle(pool)
+    ddir = os.path.join(base, 'D')
+    os.makedirs(ddir, exist_ok=True)
+    with ThreadPoolExecutor(max_workers=NCPU) as ex:
+        djobs = [ex.submit(noconf_case, ctx, data, os.path.join(ddir, 'c%d' % i), 'D%d' % i) for i, (kl, data) in enumerate(pool[:(400 if thorough else 80)])]
+        for j in djobs:
+            try:
+                j.result()
+            except Exception as e:
+                import traceback
+                chk.violation('harness', 'harness error: %r %s' % (e, traceback.format_exc()[-600:]), {'error': repr(e)}, no_input=True)
+    phases['route_D_s'] = round(time.time() - t_d, 1)
     chk.cov['phases'] = phases
     # ---- verdict on the obligations ----
     if ob['failed']:
@@ -755,6 +870,7 @@ def main(tier, replay=None):
     chk.cov['samples'] = ctx.samples
     chk.cov['distribution'] = {k: v for k, v in st.items()}
     chk.cov['corpus_cases'] = ncorpus
+    chk.cov['violations_found_before_cap'] = getattr(ctx, 'nviol', 0)
     chk.assumptions = ['time() is the only clock read while saving (LD_PRELOAD shim)', 'tmpfs under /dev/shm accepts arbitrary byte names',
                        '--test-skip-device: disk and parity UUIDs are empty, so state_map does not rewrite UUIDs between load and save']
     if regen_msgs:
